@@ -528,8 +528,17 @@ def check_tool_paths(ctx, tool):
                             isinstance(a, ast.Name) and a.id in acc_params
                             for a in e.node.args)
                 for e in p.events)
+            # ... or walked through the worker itself, whose entries are
+            # yielded on (a nested mapping without entries yields none)
+            walked = any(
+                c.kind == 'loop' and isinstance(tfl.expand(c.expr), ast.Call)
+                and prog.callee_of(g, tfl.expand(c.expr)) in (
+                    [g, flat] + workers) and any(
+                        isinstance(x, ast.Name) and x.id in elems
+                        for x in ast.walk(tfl.expand(c.expr)))
+                for c in p.conds)
             if not adds and not stores and not yields and not kept \
-                    and not handed:
+                    and not handed and not walked:
                 dropped = p
     ctx.ob('C19.TARGET', dropped is None and n > 0, ctx.where(
         flat.module, flat.node), flat.qual,
